@@ -18,6 +18,18 @@ def main(argv):
         from mc.engine.harness import unjson
         with open(argv[1]) as f:
             art = json.load(f)
+        if isinstance(art.get('case'), dict) and '$crash' in art['case']:
+            # the implementation raised where the check expected no exception: show the recorded traceback and
+            # re-run the check up to its first violating part
+            import subprocess
+            print(art['detail'])
+            r = subprocess.run([sys.executable, '-m', 'mc.run', art['property'], art.get('tier', 'quick')],
+                               env=dict(os.environ, VERIF_FAILFAST='1'), capture_output=True, text=True)
+            again = 'impl-crash|' in r.stdout
+            print('REPLAY-RESULT ' + json.dumps({'violated': again, 'observed': [art['sig']] if again else []}))
+            if again:
+                print('VIOLATION property=%s replay=%s' % (art['property'], argv[1]))
+            return 1 if again else 0
         mod = importlib.import_module('mc.checks.' + art['property'].lower())
         viols = mod.replay(art['part'], unjson(art['case']))
         import re
@@ -43,8 +55,23 @@ def main(argv):
     mod = importlib.import_module('mc.checks.' + pid.lower())
     try:
         return mod.main(tier, seed)
-    except Exception:
+    except Exception as e:
         traceback.print_exc()
+        from mc.engine.pool import impl_origin
+        origin = impl_origin(e)
+        if origin is not None:
+            # raised inside a call into the implementation that the check expected to succeed: a verdict, not a harness failure
+            from mc.engine.harness import REPLAY_DIR
+            d = os.path.join(REPLAY_DIR, pid)
+            os.makedirs(d, exist_ok=True)
+            path = os.path.join(d, '%s-crash.json' % tier)
+            with open(path, 'w') as f:
+                json.dump({'property': pid, 'part': '_main', 'tier': tier, 'sig': 'impl-crash|' + origin,
+                           'case': {'$crash': origin}, 'detail': traceback.format_exc()[-3000:],
+                           'expected': None, 'observed': None}, f, indent=1, sort_keys=True)
+            print('  sig=impl-crash|%s' % origin)
+            print('VIOLATION property=%s replay=%s' % (pid, path))
+            return 1
         print('HARNESS-ERROR property=%s (exception in the check itself, not a verdict)' % pid)
         return 2
 
